@@ -17,7 +17,7 @@ PROP = dict(
          "side-effecting argument expressions; plus arities 31, 32 and 33 (above CallData::MAX_NARGS the call goes through a function "
          "object) with defaults on parameter 5 and on the last ten, 10 shapes each (all positional, defaults omitted, all by name "
          "reversed, positional prefix + reversed names, holes filled by defaults, surplus, missing, name+position, unknown name, "
-         "positional after named) for all 7 callee forms; 5 fixed probes; distinct = distinct (form, parameter list, shape); non-trivial = the call "
+         "positional after named) for all 7 callee forms; 6 fixed probes; distinct = distinct (form, parameter list, shape); non-trivial = the call "
          "uses a name, omits a parameter or is rejected",
     nontrivial=lambda req, imp: imp.startswith("diag") or any(w not in ("_", "-") for w in req.split()[3].split(",")) or "d" in imp.split("|")[0],
     trusted_base=COMMON_TB + [
@@ -27,8 +27,8 @@ PROP = dict(
     ],
     assumptions=[
         "fixed probes (harness/probes_bg8, Rust-side oracle): a 32-argument positional call, a payload variant named without "
-        "arguments (D87: diagnostic), a default on an interface-implementation method (D102: must behave like any named function), "
-        "a default on a lambda parameter (a diagnostic, never a crash), match expressions inside default values",
+        "arguments (D87: diagnostic), a default on an interface-implementation method and on a lambda parameter (D102, c7017fe: a diagnostic at "
+        "the declaration), match expressions inside default values of a #host declaration and of a named function",
         "parameter names of one callee are pairwise distinct (hypothesis of the theorems; the generator only produces such lists)",
         "default values are literals (a default that mentions a name is outside the property's quantifier; see D30)",
     ],
